@@ -1041,3 +1041,23 @@ def brace_scan_by_tokens(run, R="MATCH"):
             bad.append(name.rsplit("::", 1)[-1])
     run.check(n == 2 and not bad, R, R + "|block-end|by-tokens", "-", "the end of a braced block is found by counting brace tokens",
               "%s counts raw `{`/`}` characters: a `}` inside a comment or a string literal of an asm block ends the block (`ld 7 ; closes with }` gives `invalid pattern token`)" % ", ".join(bad))
+
+
+def lookahead_skips_comments(run, R="MATCH"):
+    """the scan for the literal character that ends an operand steps over comments: it asks the tokenizer whether a Comment token
+    starts at the position and continues behind it, so a comment neither contains the wanted character nor counts as operand text"""
+    g = run.anchor(R, "Walker::<'src>::find_lookahead_char_index")
+    if g is None:
+        return
+    asks = [bi for bi, t in g.calls() if re.search(r"::(token_at|next_token|next_nth_token)$", t.get("resolved") or t.get("callee") or "")]
+    kinds = set()
+    for bi, t in g.calls():
+        for a in t["args"]:
+            v = promoted_variant(run.prog, g, a)
+            if v:
+                kinds.add(v)
+    for bi, si, st in g.stmts():
+        if st["k"] == "assign" and st["rv"]["k"] == "agg" and st["rv"].get("adt", "").endswith("TokenKind") and st["rv"].get("variant"):
+            kinds.add(st["rv"]["variant"])
+    run.check(bool(asks) and "Comment" in kinds, R, R + "|lookahead|skips-comments", g.loc(), "the operand lookahead steps over Comment tokens",
+              "find_lookahead_char_index scans raw characters without recognising comments: a block comment before or inside an operand changes where the operand ends (`op ;*c*; -1-2` against `op {x}-{y}` gives `no match`)")
